@@ -27,6 +27,7 @@ type retInfo struct {
 	vals  []*SVal
 	st    *State
 	pos   token.Pos
+	blk   *ssa.BasicBlock
 }
 
 type loopInfo struct {
@@ -884,8 +885,16 @@ func (f *Frame) exec(ins ssa.Instruction) {
 	case *ssa.Next:
 		f.setVal(x, f.next(x))
 	case *ssa.Select:
-		g.note("%s: select statement abstracted (results unconstrained)", f.fn.String())
-		f.setVal(x, g.freshVal(x.Type(), x.Name()))
+		g.note("%s: select statement abstracted (any ready case; received values unconstrained)", f.fn.String())
+		sv := g.freshVal(x.Type(), x.Name())
+		// the chosen index is one of the cases (or -1 for a non-blocking select's default)
+		idx := sv.Sub[0].Term
+		lo := bv64(0)
+		if !x.Blocking {
+			lo = bv64(-1)
+		}
+		g.assume(f.curReach, sAnd(sApp("bvsle", lo, idx), sApp("bvslt", idx, bv64(int64(len(x.States))))))
+		f.setVal(x, sv)
 	case *ssa.Store:
 		p := f.val(x.Addr)
 		v := f.coerce(f.val(x.Val), x.Val.Type())
@@ -900,7 +909,7 @@ func (f *Frame) exec(ins ssa.Instruction) {
 		for i, r := range x.Results {
 			vals = append(vals, f.coerce(f.val(r), f.fn.Signature.Results().At(i).Type()))
 		}
-		f.rets = append(f.rets, retInfo{f.curReach, vals, f.curState, x.Pos()})
+		f.rets = append(f.rets, retInfo{f.curReach, vals, f.curState, x.Pos(), f.curBlock})
 	case *ssa.Panic:
 		if f.contract != nil && f.contract.MayPanic && f.isTop {
 			f.curReach = "false"
